@@ -431,7 +431,7 @@ pub fn run(ctx: &Ctx, rep: &mut Report) {
                         Variant::Default => "Default".to_string(),
                     }
                 } else {
-                    packed::implementation(&s)
+                    packed::implementation(&s, v)
                 };
                 let imp = format!("{}_m{}", imp_name, minlen.min(4));
                 let nh = if miri { 5 } else { ctx.tier.pick(4, 24, 40) };
@@ -650,7 +650,7 @@ pub fn replay(case: &J, rep: &mut Report) -> Result<(), String> {
         "packed" => {
             let c = packed::parse_case(case)?;
             let s = packed::build(&pats, c.kind, c.variant).ok_or("packed searcher not built")?;
-            let imp = packed::implementation(&s);
+            let imp = packed::implementation(&s, c.variant);
             with_placements("guard", &mut gb, &hay, &mut |h, pl| {
                 exercise_packed(rep, &pats, c.kind, c.variant, &s, &imp, h, span, pl)
             });
